@@ -6,7 +6,7 @@
    [request_body], [lan_request], [datagram], [open_session_request], [rakp_message_1], [rakp_message_3].
    [wf_request]: the caller's field values are in the ranges the specification gives the fields. *)
 From BMC Require Import Base Prim Layers Layers2 Serialize SpecRequests Packet RequestProofs.
-From BMCProps Require Import Tie.
+From BMCProps Require Import TieOps.
 Import SpecParse.
 
 (* every request body, for all field values: the specification parser reads back the caller's fields *)
